@@ -18,15 +18,15 @@ CHECKS = {
     "C12": ("model_checking", "6 C12", "counters, current point, path and model times are never logged: the spec computes them from the action sequence (Commit is a silent spec step) and the Return record must agree; MC proves the counter invariants over all outcome sequences incl. filter vetoes", "TLA+ model checking + trace validation (unlogged variables inferred by the spec)"),
     "C15": ("model_checking", "6 C15", "MC of the four controllers over all accept/reject/fail sequences with lamb_max within reach; traced solves with injected failures and tiny lamb_max; exact.solves uses an independently computed implicit-Euler residual; Controllers.tla (decision logic) replayed case by case on the real controller classes; TLC -simulate behaviours replayed through the real Solver.solve (loop driver)", "TLA+ model checking + trace validation"),
     "C16": ("model_checking", "6 C16", "MC over all six policies x multiplier-norm levels x filter histories; traced solves with all policies and starting multipliers 1e-8..1e8; rho used by each trial, solver rho at each callback and policy rho before/after each update are events", "TLA+ model checking + trace validation"),
-    "C04": ("model_checking", "6 C04", "TransformFn.tla defines the internal problem from the change of variables and slack/offset embedding in exact integer arithmetic; TLC proves chain rule (exact central differences), round trips, start slack = clip, residual correspondence and zero padding over weights x row-kind pairs x points x multipliers; every case is replayed bit-for-bit through Transformation / evaluator in COO/CSR/CSC", "kernel TLA+ spec (exhaustive on an exact domain) + bit-exact conformance replay"),
+    "C04": ("model_checking", "6 C04", "TransformFn.tla defines the internal problem from the change of variables and slack/offset embedding in exact integer arithmetic; TLC proves chain rule (exact central differences), round trips, start slack = clip, residual correspondence and zero padding over weights x row-kind pairs x points x multipliers; every case is replayed bit-for-bit through Transformation / evaluator in COO/CSR/CSC, with further points inside and outside the variable bounds", "kernel TLA+ spec (exhaustive on an exact domain) + bit-exact conformance replay"),
     "C13": ("model_checking", "6 C13", "Residuals.tla defines augmented Lagrangian, residuals, active sets, implicit-Euler function and generalised Jacobian; TLC proves they are each other's exact derivatives (5-point stencils) and the projection / normal-cone characterisations; every case (all active sets) is replayed exactly on Iterate, ActiveSet, ImplicitFunc, ScaledImplicitFunc, keep_rows", "kernel TLA+ spec + exact conformance replay"),
-    "C14": ("model_checking", "6 C14", "NewtonAlg.tla proves by Cramer's rule on integer data that the block-eliminated scaled formulation with back-substitution solves the standard semismooth Newton system for every active set (and exhibits the disagreement of the H(y) variant as a witness); each case is replayed through newton_method().step for 4 step solvers x {LU, GMRES, MINRES} x {Full, Simplified, ActiveSet} against the exact rational step", "kernel TLA+ spec (exact rational algebra) + conformance replay with solver tolerances"),
-    "C18": ("model_checking", "6 C18", "Filter.tla is finite on a KxK grid, so TLC covers all insertion histories of any length; FilterInd.tla: Apalache establishes the antichain property as an inductive invariant over unbounded integers; every reachable state is one edge (before, pair, verdict, after) replayed on both filter classes under three order-preserving rank->float maps; end-to-end filter-policy traces are validated against the same operators in GradFlow.tla", "TLA+ model checking (all histories on a grid) + full transition-coverage replay + trace validation"),
+    "C14": ("model_checking", "6 C14", "NewtonAlg.tla proves by Cramer's rule on integer data that the block-eliminated scaled formulation with back-substitution solves the standard semismooth Newton system for every active set (and exhibits the disagreement of the H(y) variant as a witness); each case is replayed through newton_method().step for 4 step solvers x {LU, GMRES, MINRES} x {Full, Simplified, ActiveSet} against the exact rational step, also with reused solver objects and after steps for other penalties on the same iterates", "kernel TLA+ spec (exact rational algebra) + conformance replay with solver tolerances"),
+    "C18": ("model_checking", "6 C18", "Filter.tla is finite on a KxK grid, so TLC covers all insertion histories of any length; FilterInd.tla: Apalache establishes the antichain property as an inductive invariant over unbounded integers; every reachable state is one edge (before, pair, verdict, after) replayed on both filter classes under three order-preserving rank->float maps and both working precisions; end-to-end filter-policy traces are validated against the same operators in GradFlow.tla", "TLA+ model checking (all histories on a grid) + full transition-coverage replay + trace validation"),
     "C20": ("model_checking", "6 C20", "ScalingFn.tla transcribes frexp, row maxima of the column-prescaled Jacobian and the square-root column-sum equilibration in exact integer arithmetic; TLC checks the [1,2) / [1,4) normalisation over the whole domain (entries below one included); every case is replayed through scale.py and the predicate is evaluated with Fractions on the code's own weights", "kernel TLA+ spec (exhaustive on an exact domain) + exact conformance replay"),
     "C01": ("model_checking", "6 C01", "KKTAbs.tla: TLC proves InternalKKT => UserKKT for all internal class combinations (which user-level clauses a Return may be held to); every Optimal Return of a sweep over scalings x row kinds x solver configurations carries oracle classes of the user's problem at (x,y,d) and TLC evaluates UserKKT on it; IntegrationLoop.tla (loop, free set, events, penalty) + the same validation for IntegrationSolver's recorded runs; FlowFilter.tla (free set / event triggers / deciding event of the flow-integration solver) replayed case by case on the real code", "TLA+ model checking (design theorem) + trace validation of every Optimal return"),
     "C03": ("exploration", "6 C03", "seeded well-posed strictly convex QPs (hypotheses checked numerically per instance) under the default and the listed single-parameter variants must return Optimal within 2000 iterations; convergence is not decidable by a finite-state model, so this is exploration of observed executions (each also trace-validated against GradFlow.tla)", "generator-driven exploration + trace validation (clause wellposed.solved)"),
     "C17": ("model_checking", "6 C17", "LinSolve.tla owns the exact facts (determinant, structural singularity, Cramer solution; sanity model-checked) and the outcome relation; all 625 integer 2x2 and 538 structured 3x3 matrices x rhs x trans x solver x guess x format are executed on the real solvers and each observed outcome is validated by TLC (residual computed in integers); larger random systems (right-hand sides of magnitude 1e-5 .. 1e7, cold and warm starts) by a float oracle (exploration-grade); every factorisation / solve inside a sweep of real solves is a Lin event of GradFlow.tla carrying an independent residual class (clause lin.converged)", "kernel TLA+ spec + outcome validation by TLC"),
-    "C19": ("model_checking", "6 C19", "DerivCheck.tla: check order and column loop explored for every set of <= 2 wrong entries x magnitude class x flag; each final verdict replayed through Solver.solve (which check raised, column, rows); twin real solves with/without the check must be bit-identical", "TLA+ model checking of the decision logic + conformance replay + twin trace validation"),
+    "C19": ("model_checking", "6 C19", "DerivCheck.tla: check order and column loop explored for every set of <= 2 wrong entries x magnitude class (two numeric realisations each) x flag; each final verdict replayed through Solver.solve (which check raised, column, rows); twin real solves with/without the check must be bit-identical", "TLA+ model checking of the decision logic + conformance replay + twin trace validation"),
 }
 PENDING = {
     "C01": "check under construction (KKTAbs.tla is model-checked and its UserKKT predicate is already evaluated on every Optimal Return; the dedicated sweep and the integration solver are pending)",
